@@ -10,6 +10,8 @@ from .model import Model, AnalysisError
 
 def _worker(task):
     prop, modname, fnname, gcode, opts = task
+    if os.environ.get('VERIF_TEST_KILL_WORKER') == gcode and multiprocessing.current_process().name != 'MainProcess':
+        os._exit(9)         # fault injection for the pool's own test: a worker that dies must not hang the check
     try:
         from .entries import make_interp, run_gcode
         model = Model()
@@ -59,9 +61,22 @@ def run_path_rules(ctx, modname, fnname, gcodes, **opts):
     if jobs <= 1:
         results = [_worker(t) for t in tasks]
     else:
+        # a process pool that notices a dying worker (multiprocessing.Pool waits for ever when a worker is killed, for
+        # example by the kernel's out-of-memory handler); whatever is missing afterwards is evaluated in this process
+        from concurrent.futures import ProcessPoolExecutor, as_completed
+        from concurrent.futures.process import BrokenProcessPool
         mp = multiprocessing.get_context('fork')
-        with mp.Pool(jobs) as pool:
-            results = pool.map(_worker, tasks, chunksize=1)
+        results = [None] * len(tasks)
+        try:
+            with ProcessPoolExecutor(jobs, mp_context=mp) as ex:
+                futs = dict((ex.submit(_worker, t), i) for i, t in enumerate(tasks))
+                for fut in as_completed(futs):
+                    results[futs[fut]] = fut.result()
+        except BrokenProcessPool:
+            ctx.notes.append('a worker process died; the handlers it left unfinished were evaluated sequentially')
+        for i, t in enumerate(tasks):
+            if results[i] is None:
+                results[i] = _worker(t)
     per = {}
     for status, gcode, payload in results:
         if status != 'ok':
